@@ -506,6 +506,8 @@ class FuncVerifier:
         if k == 'opt':
             inner = sv.ty.args[0]
             return z3.And(t != P.none, self.truthy(unbox(t, inner)))
+        if k == 'any':
+            return P.truth(t)
         raise EngineError('truthiness of %r unknown' % (sv,))
 
     def py_eq(self, a, b, node=None, st=None, spec=False):
@@ -686,8 +688,22 @@ class FuncVerifier:
     def ev_Name(self, node, st, spec):
         return self.lookup(node.id, st, node, spec)
 
+    def ev_element(self, e, st, spec):
+        """an element of a list / tuple display; in slice mode an element outside the subset (a bound method, a lambda, a call
+        of unknown code without sites) is an arbitrary value -- the display still has its length"""
+        if spec or not self.in_slice() or self.binders:
+            return self.ev(e, st, spec)
+        if any(isinstance(n, ast.Call) for n in ast.walk(e)):
+            return self.ev(e, st, spec)        # calls may have effects: the statement-level abstraction handles them
+        no = len(self.obligations)
+        try:
+            return self.ev(e, st, spec)
+        except (Unsupported, EngineError):
+            del self.obligations[no:]
+            return self.E.fresh('elt', ANY)
+
     def ev_Tuple(self, node, st, spec):
-        elts = [self.ev(e, st, spec) for e in node.elts]
+        elts = [self.ev_element(e, st, spec) for e in node.elts]
         ety = None
         for e in elts:
             ety = e.ty if ety is None else T.join(ety, e.ty)
